@@ -14,7 +14,7 @@ MANUAL = {  # seed@prop -> (job, tier): checks added/strengthened after the seed
     'C15-6@C15': ('c15_sse_mis_crc32c', 'quick'), 'C16-5@C16': ('c16_rgm_bytes', 'quick'), 'C16-6@C16': ('c16_pw_null_count', 'quick'),
     'C17-5@C17': ('c17_file_schema_spec_n2', 'quick'), 'C17-6@C17': ('c13_sem_parse_schema_element', 'quick'),
     'C19-6@C19': ('c19_ensure_row_group_b', 'quick'), 'C14-1@C14': ('c14_crc32_plain_len04', 'quick'),
-    'C08-2@C08': ('c08_lz4_decompress', 'quick'),
+    'C08-2@C08': ('c08_lz4_decompress', 'quick'), 'C10-4@C10': ('c08_snappy_decompress', 'quick'),
 }
 SKIP = {'C09-1@C09': 'detected in the thorough tier by c09_lz4_compress_rest (about 50 min; not re-run in this pass)',
         'C10-3@C10': 'detected in the thorough tier by c09_lz4_compress_rest (about 50 min; not re-run in this pass)'}
@@ -45,6 +45,12 @@ for s in seeds:
             out[key] = dict(seed=s, prop=p, outcome='DETECTED', tier='thorough', how=SKIP[key], violations=prev.get(key, {}).get('violations', []))
             continue
         job = tier = None
+        if p != prop and key not in MANUAL and prev.get(key, {}).get('outcome') != 'DETECTED':
+            # cross-check of a seed against a second property that did not report it before: not re-run in this
+            # pass (whole checks of C09/C10 take 10 min each); the earlier outcome is kept
+            if key in prev:
+                out[key] = dict(prev[key], how='earlier run kept (cross-check not repeated)')
+            continue
         if key in MANUAL:
             job, tier = MANUAL[key]
         else:
